@@ -256,6 +256,16 @@ def run(ctx):
         def on(e, nm):
             a = e.args[0] if e.args else None
             return isinstance(a, tuple) and a[0] == "refmut" and isinstance(a[1], tuple) and a[1][0] == "loc" and names.get(a[1][1]) == nm
+
+        def is_buffer_empty_test(t):
+            # buffer.is_empty(), directly or on a &str view of it (a helper taking the buffer as &str)
+            if not is_call(t, "String::is_empty", "str>::is_empty"):
+                return False
+            a = strip_refs(call_args(t)[0])
+            for _ in range(3):
+                if is_call(a, "Deref>::deref", "String::as_str", "AsRef", "Borrow"):
+                    a = strip_refs(call_args(a)[0])
+            return isinstance(a, tuple) and a[0] in ("havoc", "mutated") and names.get(a[1]) == "buffer"
         backs = [p for p in paths if p.end[0] == "back"]
         ctx.floor("D2-SEGMENT", FR, "loop back-edge paths", len(backs), 3)
         kinds = set()
@@ -275,7 +285,7 @@ def run(ctx):
                 if rew and ("rewritten", c.bb) not in kinds:
                     kinds.add(("rewritten", c.bb))
                     ctx.violation("D2-SEGMENT", FR, "boundary-test-on-line-as-read", "the record boundary is tested on a rewritten copy of the line (%s): lines that merely resemble PKGNAME= would start a record" % rew, body.span_of(c.bb))
-            nonempty = [c for c in p.conds() if is_call(c.term, "String::is_empty") and names.get(strip_refs(call_args(c.term)[0])[1] if isinstance(strip_refs(call_args(c.term)[0]), tuple) and strip_refs(call_args(c.term)[0])[0] in ("havoc", "mutated") else -1) == "buffer"]
+            nonempty = [c for c in p.conds() if is_buffer_empty_test(c.term)]
             if is_blank:
                 kinds.add("blank")
                 ctx.check(not (emits or clears or appends or nls), "D2-SEGMENT", FR, "blank-line", "blank lines have no effect",
@@ -297,7 +307,9 @@ def run(ctx):
             else:
                 kinds.add("keep")
                 okg = (bool(start) and start[0].fact == ("eq", False)) or (bool(nonempty) and nonempty[0].fact == ("eq", True))
-                ctx.check(okg and not clears, "D2-SEGMENT", FR, "keep-path-%s" % ("first" if (start and start[0].fact == ("eq", True)) else "other"),
+                # emptying a buffer known to be empty changes nothing
+                noop_clear = bool(nonempty) and nonempty[0].fact == ("eq", True) and all(p.events.index(c_) > p.events.index(nonempty[0]) for c_ in clears)
+                ctx.check(okg and (not clears or noop_clear), "D2-SEGMENT", FR, "keep-path-%s" % ("first" if (start and start[0].fact == ("eq", True)) else "other"),
                           "non-emitting path: not a record start, or nothing buffered yet", "a line is kept without emitting although it starts a record with a non-empty buffer (or the buffer is cleared)", body.span_of(p.blocks[-1]))
             okl = len(appends) == 1 and len(nls) == 1 and p.events.index(appends[0]) < p.events.index(nls[0]) and const_char(nls[0].args[1]) == "\n" \
                 and mentions(appends[0].args[1], lambda s: is_call(s, "str>::trim"))
@@ -309,7 +321,7 @@ def run(ctx):
         saw_final = False
         for p in oks:
             emits = [e for e in p.events if ev_is(e, "Vec::push") and on(e, "indexes")]
-            ne = [c for c in p.conds() if is_call(c.term, "String::is_empty")]
+            ne = [c for c in p.conds() if is_buffer_empty_test(c.term)]
             empty = bool(ne) and ne[-1].fact == ("eq", True)
             if empty:
                 ctx.check(not emits, "D2-SEGMENT", FR, "final-empty", "nothing emitted for an empty buffer", "a record is emitted from an empty buffer at end of input", fn_span(body), nontrivial=False)
